@@ -292,4 +292,34 @@ def recRun : Store String → List Rec → Option (Store String × List Obs)
       | none => none
       | some (s'', os) => some (s'', o :: os)
 
+/-! ### The window between `After`'s return and the first step of the iteration
+
+`After` itself does nothing (structural fact `eventstore.after_delivery`: its body is the `copyData` closure
+and `return func(yield …)`); the snapshot is taken by the iterator's first step.  A consumer that obtains the
+iterator and ranges over it later leaves a WINDOW in which whole API calls (its own or another goroutine's)
+take effect.  An `iter` line of the harness lists the calls it issued in that window (`0:<op>`); they are
+records of their own, made before the iteration starts, each answered without an error (the harness reports a
+panic of any of them as the observation of the line). -/
+
+/-- The records of one `iter` line with the window calls `pre`. -/
+def wireRecs (pre : List (Op String)) (r : Rec) : List Rec := pre.map Rec.op ++ [r]
+
+/-- … with the implementation's observations. -/
+def expand (pre : List (Op String)) (r : Rec) (obs : Obs) : List (Rec × Obs) :=
+  pre.map (fun o => (Rec.op o, Obs.ok)) ++ [(r, obs)]
+
+/-- The monitor over the records of one line: the new bookkeeping, the first clause raised. -/
+def monRun : MState → List (Rec × Obs) → MState × Option Clause
+  | st, [] => (st, none)
+  | st, (r, obs) :: tr =>
+    match (monStep st r obs).2 with
+    | some cl => ((monRun (monStep st r obs).1 tr).1, some cl)
+    | none => monRun (monStep st r obs).1 tr
+
+/-- A window call: no answer of its own (`After` and `MaxBytes` are not issued in the window). -/
+def isWindowOp : Op String → Bool
+  | .after _ _ => false
+  | .maxBytes => false
+  | _ => true
+
 end EventStore
